@@ -50,6 +50,11 @@ def entity(kind, path):
                           D.static(single(I), 'Id', []),
                           D.method(single(T('U')), 'as', [arg(T('U', 1, '&'), 'u')], tpl=[D.tparam('U', [I, T('ns::Rot')])])],
                       tpl=[D.tparam('T', [T('double'), T('ns::Pose')])])]
+    if kind == 'tclass2':
+        # two template parameters: the C++ name of an instantiation contains a blank (Tw<int, double>)
+        C = 'Tw' + s
+        return [D.cls(C, [D.ctor(C, [arg(T('A'), 'a'), arg(T('B', 1, '&'), 'b')]), D.method(single(T('B')), 'second', [], 1)],
+                      tpl=[D.tparam('A', [I, T('ns::Pose')]), D.tparam('B', [T('double')])])]
     if kind == 'typedef':
         C = 'Tt' + s
         return [D.cls(C, [D.ctor(C, [arg(T('T'), 'v')]), D.method(single(T('T')), 'get', [])], tpl=[D.tparam('T')]),
